@@ -17,7 +17,7 @@ RULE = ("cubes with 1..k sub-cubes, both cube types; the callback raises an Exce
         "seeded line-level scheduler, real ThreadPool under a hard timeout); checked: calculate raises (one of) the raised "
         "exception object(s), returns when nothing raises, the callback is consulted at most once per sub-cube (exactly "
         "once without a raise; i+1 times in serial mode), and a following uninterrupted calculate on the SAME cube and "
-        "aggregate-function objects equals a fresh evaluation bit-for-bit. Non-trivial = the raise happens after at least "
+        "aggregate-function objects - serial, and again in the mode of the interrupted call with a counting callback - equals a fresh evaluation bit-for-bit and consults the callback once per sub-cube. Non-trivial = the raise happens after at least "
         "one completed sub-cube; distinct by (cube, mode, raising set)")
 ASSUMPTIONS = ["the interrupt is an Exception subclass (what an application-level cancellation raises); BaseException "
                "subclasses in pooled mode are checked separately and reported as a recorded finding if they hang"]
@@ -94,6 +94,27 @@ def one_mode(ctx, kind, case, nsub, mode, raising_idx, desc, exc_type=Stop):
     if again != fresh:
         ctx.oracle_fail("%s: after an interrupted run the same objects give a different result than a fresh evaluation" % kind, d,
                         cls="C20-reuse")
+        return
+    # ... and once more in the mode of the interrupted call, with a counting callback that never raises
+    log2 = []
+    cube.check_interrupt = make_callback({}, exc_type, log2)
+    try:
+        if mode == "serial":
+            again2 = c16.flat_bytes(cube.calculate(funcs))
+        else:
+            again2 = c16.flat_bytes(c16.run_pooled(kind, cube, funcs, P.PermutedPool(len(log) + 7 * nsub)))
+    except Exception as e:
+        ctx.oracle_fail("%s: a second %s calculate after an interrupted run raised %s" % (kind, d["mode"], type(e).__name__), d,
+                        cls="C20-reuse")
+        return
+    finally:
+        cube.check_interrupt = None
+    if again2 != fresh:
+        ctx.oracle_fail("%s: a %s calculate following an interrupted one on the same objects differs from a fresh evaluation" % (
+            kind, d["mode"]), d, cls="C20-reuse")
+    if len(log2) != nsub:
+        ctx.oracle_fail("%s %s: on the run following an interrupted one the callback was consulted %d times for %d sub-cubes" % (
+            kind, d["mode"], len(log2), nsub), d, cls="C20-calls")
 
 
 def run(ctx):
